@@ -223,12 +223,17 @@ def pbOp (op : String) (args : List String) : Option String :=
         | .clause c => qs.tostr (some (c.map nmL))
         | _ => qs.tostr none
   | "names" => (runP (pList (do let pre ← tok; let name ← tok; pure (pre, name))) args).map fun calls =>
-      -- `newvar(name, pre)` calls on one manager; tokens are `p:<pre>` / `n:<str(name)>` (either may be empty)
+      -- `newvar(name, pre)` calls on one manager; tokens are `p:<pre>` / `n:<str(name)>`, the strings written as their code
+      -- points joined by `.` (so that they may be empty or contain white space); names are printed back the same way
+      let dec (t : String) : List Char :=
+        let body := (t.drop 2).toString
+        if body.isEmpty then [] else (body.splitOn ".").map fun d => Char.ofNat d.toNat!
+      let enc (cs : List Char) : String := ".".intercalate (cs.map fun c => toString c.toNat)
       let kind : Var → String | .user _ => "u" | .node n => s!"n{n}" | .aux n => s!"a{n}"
       let (m, out) := calls.foldl (fun (acc : Mgr × List String) (c : String × String) =>
-        let (l, m') := acc.1.newvarPy (c.2.drop 2).toString.toList (c.1.drop 2).toString.toList
-        (m', s!"{nameOfVar l.v}:{b01 l.s}:{kind l.v}" :: acc.2)) (({} : Mgr), [])
-      " ".intercalate out.reverse ++ s!" | {m.vars.length}" ++ String.join (m.vars.map fun v => " " ++ nameOfVar v)
+        let (l, m') := acc.1.newvarPy (dec c.2) (dec c.1)
+        (m', s!"{enc l.v.chars}:{b01 l.s}:{kind l.v}" :: acc.2)) (({} : Mgr), [])
+      " ".intercalate out.reverse ++ s!" | {m.vars.length}" ++ String.join (m.vars.map fun v => " v" ++ enc v.chars)
   | "hist" => (runP (do let nm ← pNat; let ops ← pList pHOp; pure (nm, ops)) args).bind fun (nm, ops) => runHist nm ops
   | "sess" => (runP (pList (do let nm ← pNat; let ops ← pList pHOp; pure (nm, ops))) args).bind runSession
   | _ => none
